@@ -947,6 +947,7 @@ def build_models(I):
     reg(binascii.hexlify, m_hexlify)
     reg(binascii.unhexlify, m_unhexlify)
     reg(io.BytesIO, m_bytesio)
+    reg(bytes.__new__, lambda I, a, k: builtin_type_new(I, a[0], a[1:], k))
     try:
         from bitcoin.core.script import CScriptOp as _COp
         reg(_COp, m_cscriptop)
